@@ -6,6 +6,7 @@ import FhVerif.Spec.RespParse
 import FhVerif.Proofs.HeaderSet
 import FhVerif.Props.C30
 import FhVerif.Proofs.BodyOps
+import FhVerif.Gen.Facts
 
 namespace Fh.Props.C03
 open Fh Fh.Model Fh.Spec Fh.Proofs.HeaderSet Fh.Proofs.Cookie
@@ -143,6 +144,25 @@ theorem last_set_then_appends (before : List Op) (b : Bytes) (pieces : List Byte
     simp [BodyOps.run, List.foldl_append]
   rw [this, happ pieces _ (by simp [step]) (by simp [step])]
   simp [step]
+
+/-- regenerated from /repo (extract/effects_c03.go): the Response body methods do what `Model.BodyOps.step` and `sent`
+    assume — Set* and Append* close a stream and go through `bodyBuffer()`, which drops the raw body; SetBodyRaw and
+    SetBodyStream start with `ResetBody()`, which drops raw body, stream and buffer contents; `bodyBytes()` prefers the
+    raw body to the buffer.  A rewrite of any of these methods breaks this obligation (the step sequences run by the
+    harness then look for a failing input). -/
+theorem body_methods_have_modelled_shape :
+    Gen.effects_Response_SetBody = ["call:closeBodyStream", "call:bodyBuffer", "local:bodyBuf.Reset", "local:bodyBuf.Write"] ∧
+    Gen.effects_Response_SetBodyString = ["call:closeBodyStream", "call:bodyBuffer", "local:bodyBuf.Reset", "local:bodyBuf.WriteString"] ∧
+    Gen.effects_Response_AppendBody = ["call:closeBodyStream", "onresult:Write", "call:bodyBuffer"] ∧
+    Gen.effects_Response_AppendBodyString = ["call:closeBodyStream", "onresult:WriteString", "call:bodyBuffer"] ∧
+    Gen.effects_Response_ResetBody = ["set:bodyRaw=nil", "call:closeBodyStream", "if:resp.body != nil", "if:resp.keepBodyBuffer",
+      "other:resp.body.Reset", "local:responseBodyPool.Put", "set:body=nil"] ∧
+    Gen.effects_Response_SetBodyRaw = ["call:ResetBody", "set:bodyRaw=body"] ∧
+    Gen.effects_Response_SetBodyStream = ["call:ResetBody", "set:bodyStream=bodyStream", "other:resp.Header.SetContentLength"] ∧
+    Gen.effects_Response_bodyBuffer = ["if:resp.body == nil", "set:body=responseBodyPool.Get()", "local:responseBodyPool.Get",
+      "set:bodyRaw=nil", "return:resp.body"] ∧
+    Gen.effects_Response_bodyBytes = ["if:resp.bodyRaw != nil", "return:resp.bodyRaw", "if:resp.body == nil", "return:nil",
+      "return:resp.body.B"] := by decide
 
 /-! non-vacuity: a raw body over a buffered one, then an append -/
 example : Model.BodyOps.sent (Model.BodyOps.run Model.BodyOps.init
